@@ -110,6 +110,8 @@ def spec_inputs(P, spec):
             Om[:, i, j] = Om[:, j, i] = w * site[i, j]
             U = systems.make_potential(spec['pot'][key])
             mean = 0.5 * (float(spec['diam'][a]) + float(spec['diam'][b]))
+            over = spec.get('sigma_override') or {}           # a non-additive contact distance the user wrote into the sigma table
+            mean = float(over.get('%s-%s' % (a, b), over.get('%s-%s' % (b, a), mean)))
             if getattr(U, 'sigma', None) is None:
                 U.sigma = mean
             with np.errstate(all='ignore'):
